@@ -160,8 +160,8 @@ def build(shape, cards, names=None, abstract=None, ctcs=None, types=None, fcards
     feats = []
     for i in range(n):
         f = Feature(names[i])
-        if abstract is not None and abstract[i]:
-            f.is_abstract = True
+        if abstract is not None:
+            f.is_abstract = abstract[i]          # assigned, not branched on: a symbolic flag must not fork the build
         if types is not None and types[i] is not None:
             f.feature_type = types[i]
         if fcards is not None and fcards[i] is not None:
